@@ -583,7 +583,13 @@ PROPS["C04"]["harnesses"] = PROPS["C04"]["harnesses"] + [
       ["crypto::aes_kw::unwrap"], "N=%d symbolic octets" % n)
     for n, tier in [(0, "quick"), (3, "thorough"), (7, "quick")]
 ]
-PROPS["C04"]["inject"] = PROPS["C04"]["inject"] + [("src/packet/sym_key_encrypted_session_key.rs", "c04_skesk"), ("src/lib.rs", "c04_aeskw")]
+PROPS["C04"]["harnesses"] = PROPS["C04"]["harnesses"] + [
+    H("c04_secret_checksum_%s" % n, "c04_secchk", tier, 300,
+      "EncryptedSecretParams::checksum on locked secret material (usage_octets: %s) built directly: no panic, at most the check-value length, the trailing octets when enough are present (found F10)" % n,
+      ["types::EncryptedSecretParams::{new,checksum}"], "N symbolic octets")
+    for n, tier in [("255_0", "quick"), ("255_1", "quick"), ("255_3", "thorough"), ("254_19", "quick"), ("254_21", "thorough")]
+]
+PROPS["C04"]["inject"] = PROPS["C04"]["inject"] + [("src/packet/sym_key_encrypted_session_key.rs", "c04_skesk"), ("src/lib.rs", "c04_aeskw"), ("src/lib.rs", "c04_secchk")]
 PROPS["C04"]["assumptions"] = PROPS["C04"]["assumptions"] + ["c04_skesk_*: SymmetricKeyAlgorithm::decrypt_with_iv_regular is a no-op (the decrypted session-key plaintext is the attacker's octets)"]
 PROPS["C04"]["harnesses"] = PROPS["C04"]["harnesses"] + [h for h in _C04_PICKS if h["name"] not in {x["name"] for x in PROPS["C04"]["harnesses"]}]
 PROPS["C04"]["inject"] = PROPS["C04"]["inject"] + [i for i in PROPS["C17"]["inject"] + PROPS["C05"]["inject"] + PROPS["C10"]["inject"]
